@@ -423,7 +423,7 @@ def check_config(res, spec, ns, aux=False, only=None, count_state=True):
             res.axis('angle_deg', spec['angle'][0])
         res.axis('include', 'flagged' if cfg.flagged else 'absent')
     try:
-        reg = G.build(spec)
+        reg = G.build_routed(spec)       # every 4th spec (by hash) is reached by re-assignment
     except Exception as exc:
         res.violation(ID, 'build_failed', {'spec': spec}, f'could not construct region: {type(exc).__name__}: {exc}')
         return
